@@ -41,3 +41,81 @@ def explore(run, bound, max_execs=None):
 
 def preemptions(trace):
 	return sum(1 for (ne, run_en, tk) in trace if tk != 0 and run_en)
+
+
+# ---------------------------------------------------------------------------------------------------------------------
+# Line-granularity interleaving of Python thread bodies (sys.settrace baton)
+
+import sys
+import threading
+
+
+class LineInterleaver:
+	"""Runs N callables in N real threads, exactly one at a time; every 'line' event in a source file accepted by `watch(filename)`
+	is a scheduling point.  run(prefix) -> (trace, results) in the format explore() expects."""
+
+	def __init__(self, bodies, watch, timeout=30):
+		self.bodies = bodies
+		self.watch = watch
+		self.timeout = timeout
+
+	def run(self, prefix):
+		n = len(self.bodies)
+		sems = [threading.Semaphore(0) for _ in range(n)]
+		sched = threading.Semaphore(0)
+		state = ['ready'] * n          # ready / done
+		results = [None] * n
+		watch = self.watch
+		timeout = self.timeout
+		failed = []
+
+		def make_tracer(i):
+			def local(frame, event, arg):
+				if event == 'line':
+					sched.release()
+					if not sems[i].acquire(timeout=timeout):
+						failed.append(i)
+						raise SystemExit
+				return local
+
+			def tracer(frame, event, arg):
+				if event == 'call' and watch(frame.f_code.co_filename):
+					return local
+				return None
+			return tracer
+
+		def body(i):
+			if not sems[i].acquire(timeout=timeout):
+				failed.append(i)
+				return
+			sys.settrace(make_tracer(i))
+			try:
+				results[i] = ('ok', self.bodies[i]())
+			except BaseException as e:
+				results[i] = ('exc', repr(e))
+			finally:
+				sys.settrace(None)
+				state[i] = 'done'
+				sched.release()
+
+		threads = [threading.Thread(target=body, args=(i,), daemon=True) for i in range(n)]
+		for t in threads:
+			t.start()
+		trace = []
+		running = -1
+		while any(s != 'done' for s in state):
+			run_en = running >= 0 and state[running] == 'ready'
+			order = ([running] if run_en else []) + [i for i in range(n) if state[i] == 'ready' and not (run_en and i == running)]
+			c = prefix[len(trace)] if len(trace) < len(prefix) else 0
+			if not 0 <= c < len(order):
+				raise HarnessError(f'choice {c} out of range at point {len(trace)} ({len(order)} enabled)')
+			trace.append((len(order), 1 if run_en else 0, c))
+			running = order[c]
+			sems[running].release()
+			if not sched.acquire(timeout=timeout):
+				raise HarnessError('interleaver: running thread never yielded')
+		for t in threads:
+			t.join(timeout)
+		if failed:
+			raise HarnessError(f'interleaver: threads {failed} starved')
+		return trace, results
